@@ -111,7 +111,7 @@ def check_set(ctx, rng, params, nlevels):
             rec.mark_nontrivial(core.digest((knots, K, z)))
     for (z0, v0), (z1, v1) in zip(zip(levels, values), zip(levels[1:], values[1:])):
         rec.hit('monotonicity-pairs')
-        if v1 < v0 * (1 - 1e-12):
+        if v1 < v0 - 1e-10 * abs(v0):  # each value is a separate quadrature, accurate to about 1e-12 relative
             rec.violation('decreases-as-the-water-level-rises', {'levels': [z0, z1], 'T': [v0, v1], 'knots': knots, 'K': K}, dict(case, level=z1), 'spline_T')
             return
     # continuity across interior knots
